@@ -54,10 +54,12 @@ func genC20(t *rapid.T) c20Case {
 		// the watermark area (sectors 1..2) must lie in the first plain region
 		for c.Regions[0].End < 3 {
 			for i := range c.Regions {
-				if i > 0 {
+				if i > 0 && c.Regions[i].Start < 0xFFFFFFFE {
 					c.Regions[i].Start++
 				}
-				c.Regions[i].End++
+				if c.Regions[i].End < 0xFFFFFFFF {
+					c.Regions[i].End++ // (borders at the 32-bit maximum stay where they are)
+				}
 			}
 		}
 	}
